@@ -51,7 +51,12 @@ Init == l = 1
 Next ==
    /\ l <= Len(Rec)
    /\ l' = l + 1
-   /\ LET e == Rec[l] IN \A t \in Viol(e) : PrintT(<<"VIOL", t, e.pid, e.i, "dirdec">>)
+   /\ LET e == Rec[l] IN
+         /\ \A t \in Viol(e) : PrintT(<<"VIOL", t, e.pid, e.i, "dirdec">>)
+         \* a directory generated from LfnReader carries the long names the model's reader returns: a difference is model drift
+         /\ ("pred" \in DOMAIN e => PrintT(<<"INFO", "compared", e.pid, e.i, "dirdec">>))
+         /\ (("pred" \in DOMAIN e /\ e.r.k = "ok" /\ [j \in 1..Len(e.r.ents) |-> e.r.ents[j].ln] # e.pred)
+               => PrintT(<<"NOTE", "B.lfn", e.pid, e.i, "dirdec">>))
 Spec == Init /\ [][Next]_l
 TraceAccepted == TLCGet("stats").diameter = Len(Rec) + 1
 =============================================================================
